@@ -389,7 +389,7 @@ static void DecodeAdr(tStrComp* pArg, Word Mask) {
             *PPos             = '\0';
             IndirComp.Pos.Len = PPos - IndirComp.str.p_str;
         }
-        if (DecodeReg(&IndirComp, &AdrPart, &HSize, False) == eIsReg) {
+        if (DecodeReg(&IndirComp, &AdrPart, &HSize, True) == eIsReg) {
             if (!PPos) {
                 H32 = 0;
                 OK  = True;
